@@ -122,7 +122,6 @@ def _worker(args):
     modname, spec, seed, tier, idx = args
     t0 = time.time()
     try:
-        sys.setrecursionlimit(20000)
         mod = importlib.import_module(modname)
         acc = mod.run_shard(spec, seed, tier)
         d = acc.dump()
